@@ -40,6 +40,11 @@ class ScalarShape(NdContract):
             r.wdtype = "float64"
         if name == "numpy.ones" and is_nd(r):
             r.wdtype = "float64"
+        if name in ("numpy.asarray", "numpy.array", "numpy.asanyarray", "numpy.ascontiguousarray") and is_nd(r) and (len(args) > 1 or "dtype" in kwargs):
+            # conversion with an explicit dtype: float / float64 widens; any other explicit dtype has a history this model does not follow (no obligation)
+            dt = kwargs.get("dtype", args[1] if len(args) > 1 else None)
+            nm = dt if isinstance(dt, str) else getattr(dt, "name", None) or repr(dt)
+            r.wdtype = "float64" if nm in ("float", "float64", "numpy.float64", "np.float64", "builtin float", "f8", "d") else None
         return r
 
     def on_attr(self, eng, st, node, base, attr):
